@@ -7,6 +7,11 @@ Transcription of the accumulators of
 `lena/structures/histogram.py` (`histogram.__init__/fill` for one dimension, `Histogram`) and
 `lena/structures/graph.py` (`Graph.fill/compute/reset/_update`), as they are in /repo now.
 
+"A newly constructed element" in the property's second sentence is read as: the same configuration with the start
+the `reset` docstrings name (Count/Sum/DSum: zero, not the initial count/total; Graph: no points, an empty
+context and the `scale` argument, not the `points=`/`context=` arguments) — `Props/C09.lean`
+`graph_from_reset_not_same_args` is the proved counterexample to the other reading.
+
 Every element is a `Machine`: a state type with `init` (the newly constructed element), `fill`,
 `compute` and `reset`.  `compute` returns the new state as well, because some `compute` methods
 mutate the element (`Count.compute` updates its context, `Graph.compute` sorts its points and adopts a
